@@ -199,6 +199,15 @@ func (n *nodeContext) validateValue(state vertexStatus) {
 			if bound == nil {
 				continue
 			}
+			if v == Value(n.node) {
+				// The node itself was marked as a struct above, as in
+				// {x!: 1, >2}. Validating the bound against it would
+				// finalize this node again and recurse without end.
+				n.addErr(ctx.Newf(
+					"conflicting value %s (mismatched types %s and %s)",
+					bound, v.Kind(), bound.Kind()))
+				continue
+			}
 			c := MakeRootConjunct(nil, bound)
 			if b := ctx.Validate(c, v); b != nil {
 				// TODO(errors): make Validate return boolean and generate
